@@ -205,17 +205,21 @@ def compare_literal(l1, l2):
     if kind1 is None or kind1 != _literal_order_kind(l2):
         # rdflib falls back to ordering incomparable literals by their datatype IRI
         raise TypeError("Literals {} and {} cannot be compared.".format(repr(l1), repr(l2)))
-    if l1.eq(l2):
-        return 0
-    # If we are not equal, but didn't get TypeError not NotImplementedError
-    # then we know these are compatible/comparable datatypes already
-    if l1.value.__class__ in _FORCE_COMPARE_LITERAL_VALUE:
-        if l1.value == l2.value:
+    try:
+        if l1.eq(l2):
             return 0
-        elif l1.value > l2.value:
+        # If we are not equal, but didn't get TypeError not NotImplementedError
+        # then we know these are compatible/comparable datatypes already
+        if l1.value.__class__ in _FORCE_COMPARE_LITERAL_VALUE:
+            if l1.value == l2.value:
+                return 0
+            elif l1.value > l2.value:
+                return 1
+        elif l1 > l2:
             return 1
-    elif l1 > l2:
-        return 1
+    except ArithmeticError:
+        # Decimal refuses to be ordered against a float NaN (decimal.InvalidOperation)
+        raise TypeError("Literals {} and {} cannot be compared.".format(repr(l1), repr(l2)))
     return -1
 
 
